@@ -288,7 +288,7 @@ def c12(ctx):
         models.run_family(ctx, "store")
     n = 6 if ctx.quick else 40
     outs = run_conc(ctx, drv, n, ctx.seed + 5, par=2, shards=8, watchdog="180s")
-    stats = judge_conc(ctx, outs, "c12", exact=True, report_watchdog=False)
+    stats = judge_conc(ctx, outs, "c12", exact=True, report_watchdog=True)
     std_cov(ctx, stats, "concurrent scenarios executed by a harness built with -race (thresholds down to 1 byte, queue "
                         "length 0..4); a race report, a panic or a history rejected by AbsTxn is a violation")
     ctx.assumptions += ["the Go race detector decides the memory-model clause for the schedules executed, not for all"]
